@@ -22,7 +22,7 @@ T = {
     "IVPC": "contract IVP of ivp_solver used at its two call sites in S (verified separately in this same run)",
     "Z3": "z3 (LIA/EUF/NRA) and the exact polynomial-identity normaliser of pyvc.valueview / pyvc.stepalg",
     "MAP": "concurrent.futures.Executor.map yields results in task order irrespective of completion order and worker count (DESIGN 3.2; bounded conformance in bounded/C14.py)",
-    "NPLOAD": "np.load/np.savez contract (DESIGN 3.2): an unreadable entry raises OSError/ValueError/EOFError/KeyError/BadZipFile at load or member access; bounded conformance: every truncation point (bounded/C15.py kind npload-contract)",
+    "NPLOAD": "np.load/np.savez contract (DESIGN 3.2): an unreadable entry raises SOME exception at load or member access (OSError/ValueError/EOFError/KeyError/BadZipFile for truncations, NotImplementedError/RuntimeError for a damaged archive directory) and never hands out other data silently; bounded conformance: every truncation point, zero-filled blocks and flipped bytes (bounded/C15.py kind npload-contract)",
     "YAML": "yaml.safe_load returns the mapping denoted by the document",
     "DC": "dataclasses.dataclass: the real CPython implementation is executed",
 }
